@@ -110,7 +110,7 @@ Proof.
 Qed.
 
 (* a plain write from a record looked up earlier in the operation *)
-Lemma p_store_src r' s x : adv_ok c (o_trace s) -> looked_up x (o_trace s) -> plain_of x r' -> adv_ok c (o_trace (snd (p_store c r' s))).
+Lemma p_store_src r' s x : adv_ok c (o_trace s) -> looked_up x (o_trace s) -> plain_of c x r' -> adv_ok c (o_trace (snd (p_store c r' s))).
 Proof.
   intros Hs Hl Hp. unfold p_store.
   match goal with |- context [prim ?k ?ctx ?T ?E ?X s] => destruct (prim_ret_spec' k ctx T E s) as (d & s1 & R & Tr & D1) end.
@@ -131,11 +131,12 @@ Lemma same4_refl x : same4 x x. Proof. repeat split. Qed.
 Lemma same4_promote x : same4 x (promote x). Proof. unfold same4, promote. destruct (r_state x); cbn; auto. Qed.
 
 Lemma ctl_do_src ctl target reason s x :
+  target <> RSDataDeleted ->
   adv_ok c (o_trace s) -> looked_up x (o_trace s) -> same4 x ctl -> adv_ok c (o_trace (snd (ctl_do c ctl target reason s))).
 Proof.
-  intros Hs Hl (E1 & E2 & E3 & E4). unfold ctl_do. destruct (ctl_update ctl target reason) as [r'|] eqn:Eu; [|exact Hs].
-  assert (F : plain_of x r').
-  { unfold ctl_update in Eu. destruct (rs_table _ _); [|discriminate]. inversion Eu. unfold plain_of. cbn. repeat split; auto; lia. }
+  intros Htg Hs Hl (E1 & E2 & E3 & E4). unfold ctl_do. destruct (ctl_update ctl target reason) as [r'|] eqn:Eu; [|exact Hs].
+  assert (F : plain_of c x r').
+  { unfold ctl_update in Eu. destruct (rs_table _ _); [|discriminate]. inversion Eu. unfold plain_of. cbn. repeat split; auto; try lia. }
   unfold bind, catch. pose proof (p_store_src r' s x Hs Hl F) as H1.
   destruct (p_store c r' s) as [[[]|e] s1]; exact H1.
 Qed.
@@ -148,7 +149,7 @@ Proof.
   destruct (Z.of_nat cnt <? n); [exact Hs|].
   unfold bind at 1.
   match goal with |- context [ctl_do c ctl RSPaused 2 ?sx] => set (s1 := sx) end.
-  pose proof (ctl_do_src ctl RSPaused 2 s1 x Hs Hl Hc) as H1.
+  pose proof (ctl_do_src ctl RSPaused 2 s1 x ltac:(discriminate) Hs Hl Hc) as H1.
   destruct (ctl_do c ctl RSPaused 2 s1) as [[y|er] s2]; cbn [snd] in *; [|exact H1].
   destruct (fst y); exact H1.
 Qed.
@@ -188,18 +189,40 @@ Proof.
     destruct (maybe_pause c inst n oe u (promote r) s2) as [[[]|er] s3]; exact H3.
 Qed.
 
+Definition repl_of (r : record) : M obj :=
+  if ec_del c =? 0 then ret ODeleted
+  else match r_obj r with
+       | ODeleted => fail EGen
+       | OVal seed tr =>
+         n <- att_bump (ufun_code UFDelete) (r_run r) ;;
+         w <- get_w ;;
+         let failing := Z.of_nat n <? ec_del c - 2 in
+         emit (TUser UFDelete r (lookup_run w (r_run r)) (w_now w) (if failing then UErr 60 else UOk)) ;;;
+         if failing then fail EGen else ret (OVal seed [])
+       end.
+Lemma repl_of_out r s o s2 : repl_of r s = (Ok o, s2) -> o = scrub_obj c (r_obj r).
+Proof.
+  unfold repl_of, scrub_obj. destruct (ec_del c =? 0); [unfold ret; intros H; now inversion H|].
+  destruct (r_obj r) as [seed tr|]; [|unfold fail; discriminate].
+  unfold bind at 1, att_bump. cbn [fst snd]. unfold bind at 1, get_w. cbn [fst snd]. cbv zeta. unfold bind at 1.
+  destruct (emit _ _) as [[[]|e] s1]; [|discriminate]. destruct (_ <? _); [unfold fail; discriminate|]. unfold ret. intros H. now inversion H.
+Qed.
+Lemma ns_repl_of r : ns (repl_of r).
+Proof.
+  unfold repl_of. destruct (ec_del c =? 0); [ns_go|]. destruct (r_obj r); [|ns_go].
+  apply ns_bind; [apply em_att_bump|]. intros n. apply ns_bind; [apply ns_get_w|]. intros w. cbv zeta. ns_go.
+Qed.
+
 Theorem delete_handler_adv e : adv (delete_handler c e).
 Proof.
   intros s Hs. unfold delete_handler. unfold bind at 1.
   pose proof (ns_p_lookup (e_run e) s) as F1.
   destruct (p_lookup (e_run e) s) as [[[r|]|er] s1] eqn:El; cbn [snd] in *; pose proof (adv_ok_em c _ _ F1 Hs) as H1; try exact H1.
   destruct (p_lookup_post _ _ _ _ El) as [Hl _].
-  unfold bind at 1.
-  match goal with |- context [match ?m s1 with _ => _ end] => assert (F2 : ns m) end.
-  { destruct (ec_del c =? 0); [ns_go|]. destruct (r_obj r); [|ns_go].
-    apply ns_bind; [apply em_att_bump|]. intros n. apply ns_bind; [apply ns_get_w|]. intros w. cbv zeta. ns_go. }
-  match goal with |- context [match ?m s1 with _ => _ end] => pose proof (F2 s1) as F2'; destruct (m s1) as [[o|er] s2] end;
-    cbn [snd] in *; pose proof (adv_ok_em c _ _ F2' H1) as H2; [|exact H2].
+  change (adv_ok c (o_trace (snd ((repl <- repl_of r ;; p_store c (bump (set_state (set_obj r repl) RSDataDeleted))) s1)))).
+  unfold bind at 1. pose proof (ns_repl_of r s1) as F2'.
+  destruct (repl_of r s1) as [[o|er] s2] eqn:Er; cbn [snd] in *; pose proof (adv_ok_em c _ _ F2' H1) as H2; [|exact H2].
+  apply repl_of_out in Er. subst o.
   apply (p_store_src _ s2 r H2).
   - destruct F2' as (t & Et & _). rewrite Et. apply looked_up_ext, Hl.
   - unfold plain_of. cbn. repeat split; auto.
@@ -213,7 +236,7 @@ Proof.
   destruct (p_lookup_post _ _ _ _ El) as [Hl _].
   destruct (negb (rs_eqb (r_state r) RSPaused)); [exact H1|]. unfold bind at 1, get_w. cbn [fst snd].
   destruct (r_updated r >? w_now (o_w s1) - ec_retry c); [exact H1|]. unfold bind at 1.
-  pose proof (ctl_do_src r RSRunning 0 s1 r H1 Hl (same4_refl r)) as H2.
+  pose proof (ctl_do_src r RSRunning 0 s1 r ltac:(discriminate) H1 Hl (same4_refl r)) as H2.
   destruct (ctl_do c r RSRunning 0 s1) as [[y|er] s2]; cbn [snd] in *; [|exact H2]. destruct (fst y); exact H2.
 Qed.
 
@@ -223,7 +246,7 @@ Proof.
   pose proof (ns_p_lookup run s) as F1.
   destruct (p_lookup run s) as [[[r|]|er] s1] eqn:El; cbn [snd] in *; pose proof (adv_ok_em c _ _ F1 Hs) as H1; try exact H1.
   destruct (p_lookup_post _ _ _ _ El) as [Hl _]. unfold bind at 1.
-  pose proof (ctl_do_src r (ctl_target o) 4 s1 r H1 Hl (same4_refl r)) as H2.
+  pose proof (ctl_do_src r (ctl_target o) 4 s1 r ltac:(destruct o; discriminate) H1 Hl (same4_refl r)) as H2.
   destruct (ctl_do c r (ctl_target o) 4 s1) as [[y|er] s2]; cbn [snd] in *; [|exact H2]. destruct (fst y); exact H2.
 Qed.
 
@@ -337,7 +360,7 @@ Qed.
 
 (* what an explained Store has in its operation's trace *)
 Definition expl_in (tr : list tok) (r : record) : Prop :=
-  r_ver r = 1 \/ (exists k, In k tr /\ src_of k r) \/
+  r_ver r = 1 \/ (exists k, In k tr /\ src_of c k r) \/
   (exists u view pers now pl, In (TUser u view pers now pl) tr /\ is_step_fn u = true /\
                               (expl_ctl view r \/ exists z, pl = URet z /\ expl_adv c u view z r)).
 Definition src_tok (k : tok) : Prop := match k with TLookup _ _ _ _ | TUser _ _ _ _ _ => True | _ => False end.
@@ -361,7 +384,7 @@ Proof.
     + eapply expl_in_mono; [|apply (IH _ _ _ Hin)]. intros k _ Hk. now right.
   - destruct Hin as [E|Hin].
     + inversion E; subst. right. right. exists u, view, pers, now, (URet z). split; [right; right; now left|].
-      split; [|right; exists z; auto]. destruct He as (_ & _ & _ & b & st & mark & Hc & _). eapply configured_step_fn, Hc.
+      split; [|right; exists z; auto]. destruct He as (_ & _ & _ & _ & b & st & mark & Hc & _). eapply configured_step_fn, Hc.
     + eapply expl_in_mono; [|apply (IH _ _ _ Hin)]. intros k0 _ Hk. now right.
 Qed.
 
@@ -409,11 +432,14 @@ Proof.
 Qed.
 
 (* ---------- Part 4: every write of every history ---------- *)
-Definition kept (p r : record) : Prop := r_status r = r_status p /\ r_obj r = r_obj p.
-Definition scrubbed (p r : record) : Prop := r_state r = RSDataDeleted /\ r_status r = r_status p.
+(* a run-state change only *)
+Definition kept (p r : record) : Prop := r_status r = r_status p /\ r_obj r = r_obj p /\ r_state r <> RSDataDeleted.
+(* the data-deletion rewrite: the stored object replaced by the fixed marker or by the custom delete function's result *)
+Definition scrubbed (p r : record) : Prop := r_state r = RSDataDeleted /\ r_status r = r_status p /\ r_obj r = scrub_obj c (r_obj p).
 (* the failure-free outcome, on the PERSISTED record [p], of a function the builder configured for p's status: its step function,
    one of its callback functions or one of its timeout functions *)
 Definition advanced (p r : record) : Prop :=
+  (r_state r = RSRunning \/ r_state r = RSCompleted) /\
   exists u b mark, configured c u b (r_status p) /\
     final_beh b (obj_seed (r_obj p)) = (mark, ARet (r_status r)) /\
     r_obj r = (if mark then mark_obj (r_obj p) (r_status p) else r_obj p).
@@ -431,14 +457,14 @@ Proof.
     pose proof (Hp _ Hk) as Px. cbn in Px.
     assert (x = p).
     { apply (hv_uniq _ Hv); [exact Px|exact Pp| |]; [rewrite <- S1; apply (sf_run _ _ _ F)|pose proof (sf_ver _ _ _ F); lia]. }
-    subst x. destruct S4 as [S4|S4]; [left; split; assumption|right; left; split; assumption].
+    subst x. destruct S4 as [[S4 S5]|[S4 S5]]; [left; repeat split; assumption|right; left; repeat split; assumption].
   - pose proof (tok_in c ops H _ Hk) as Tu. cbn in Tu.
     destruct (user_ok_step u view pers Hu Tu) as (q & -> & _ & Q1 & Q2 & Q3 & Q4).
     pose proof (Hp _ Hk) as Pq. cbn in Pq.
     assert (Hq : r_run r = r_run view /\ r_ver r = r_ver view + 1 -> q = p).
     { intros [E1 E2]. apply (hv_uniq _ Hv); [exact Pq|exact Pp| |]; [rewrite <- Q4, <- E1; apply (sf_run _ _ _ F)|pose proof (sf_ver _ _ _ F); lia]. }
-    destruct He as [(E1 & E2 & E3 & E4)|(z & -> & E1 & E2 & E3 & b & st & mark & Hc & Hf & Ho)].
-    + rewrite (Hq (conj E1 E4)) in *. left. split; congruence.
+    destruct He as [(E1 & E2 & E3 & E4 & E5)|(z & -> & E1 & E2 & E3 & E4 & b & st & mark & Hc & Hf & Ho)].
+    + rewrite (Hq (conj E1 E4)) in *. left. repeat split; try congruence.
     + rewrite (Hq (conj E1 E3)) in *. right. right.
       assert (Hst : st = r_status p).
       { destruct u as [s0|s0 j|s0 j|s0 j| | | |]; cbn in Hu; try discriminate Hu.
@@ -446,7 +472,28 @@ Proof.
         - destruct Hc as [-> _]. unfold user_ok in Tu. cbn [is_step_fn] in Tu. apply andb_prop in Tu as [_ Tu]. symmetry. now apply Z.eqb_eq.
         - destruct Hc as [-> _]. unfold user_ok in Tu. cbn [is_step_fn] in Tu. apply andb_prop in Tu as [_ Tu]. apply andb_prop in Tu as [Tu _].
           symmetry. now apply Z.eqb_eq. }
-      subst st. exists u, b, mark. split; [exact Hc|]. rewrite <- Q1, E2. split; [exact Hf|exact Ho].
+      subst st. split; [exact E4|]. exists u, b, mark. split; [exact Hc|]. rewrite <- Q1, E2. split; [exact Hf|exact Ho].
+Qed.
+
+(* C15: whatever becomes DataDeleted holds the scrub of the object that was stored *)
+Theorem scrub_object ops : hist_ok ops -> forall p r a, In (TStore (Some p) r a) (trace_of c ops) ->
+  r_state r = RSDataDeleted -> r_obj r = scrub_obj c (r_obj p).
+Proof.
+  intros H p r a Hin Hs. destruct (every_write_is_failure_free ops H p r a Hin) as [(_ & _ & K)|[(_ & _ & S)|([A|A] & _)]]; try congruence.
+Qed.
+Lemma obj_eqb_refl o : obj_eqb o o = true.
+Proof. destruct o as [sd tr|]; cbn; [|reflexivity]. rewrite Z.eqb_refl. destruct (list_eq_dec Z.eq_dec tr tr); [reflexivity|contradiction]. Qed.
+Theorem mon_C15_obj_holds ops : hist_ok ops -> forall t, In t (trace_of c ops) -> mon_C15_obj c t = true.
+Proof.
+  intros H t Hin. destruct t as [| | |[p|] r a| | | | | | | |]; try reflexivity. cbn.
+  destruct (rs_eqb (r_state r) RSDataDeleted) eqn:E; [|reflexivity]. apply rs_eqb_eq in E.
+  rewrite (scrub_object ops H p r a Hin E). cbn. apply obj_eqb_refl.
+Qed.
+(* C16: the object changes only in the scrub or with the outcome of a configured function of the persisted status *)
+Theorem object_changes_only_by_function ops : hist_ok ops -> forall p r a, In (TStore (Some p) r a) (trace_of c ops) ->
+  r_obj r <> r_obj p -> scrubbed p r \/ advanced p r.
+Proof.
+  intros H p r a Hin Hne. destruct (every_write_is_failure_free ops H p r a Hin) as [(_ & K & _)|[S|A]]; [contradiction|auto|auto].
 Qed.
 
 (* the same, read off the history of committed writes: every committed write is the first write of a new run — version 1,
